@@ -912,6 +912,78 @@ func runC01(c *Ctx) {
 			c.ok(fn, "cancel paths", fn.Pos(), "%d handler completions: own interest bit tested, own interest removed first, at most once per path (%d contexts)", len(hcalls), len(contexts))
 		}
 	}
+	// R2c: every object that embeds a Slot gives it its descriptor: a slot whose Fd was never set registers descriptor 0
+	{
+		slotT := p.Named("internal", "Slot")
+		fdF := p.Field("internal", "Slot", "Fd")
+		nSlots := 0
+		for _, pk := range p.Pkgs {
+			scope := pk.Types.Scope()
+			for _, name := range scope.Names() {
+				tn, ok := scope.Lookup(name).(*types.TypeName)
+				if !ok {
+					continue
+				}
+				st, ok := tn.Type().Underlying().(*types.Struct)
+				if !ok {
+					continue
+				}
+				for i := 0; i < st.NumFields(); i++ {
+					sf := st.Field(i)
+					if !types.Identical(sf.Type(), slotT) {
+						continue
+					}
+					nSlots++
+					set := false
+					var where *ssa.Function
+					for _, fn := range p.Funcs {
+						eachInstr(fn, func(in ssa.Instruction) {
+							st, ok := in.(*ssa.Store)
+							if !ok {
+								return
+							}
+							fa, ok := st.Addr.(*ssa.FieldAddr)
+							if !ok {
+								return
+							}
+							if fv, _ := fieldAddrOf(fa); fv != fdF {
+								return
+							}
+							if inner, ok := fa.X.(*ssa.FieldAddr); ok {
+								if fv2, _ := fieldAddrOf(inner); fv2 == sf {
+									set = true
+								}
+							}
+							// composite literal T{slot: Slot{Fd: fd}}: the Slot is built in a temporary and stored as a whole
+							if tmp, ok := fa.X.(*ssa.Alloc); ok {
+								eachInstr(fn, func(x ssa.Instruction) {
+									st2, ok := x.(*ssa.Store)
+									if !ok {
+										return
+									}
+									if fv2, _ := fieldAddrOf(st2.Addr); fv2 != sf {
+										return
+									}
+									if u, ok := st2.Val.(*ssa.UnOp); ok && u.Op == token.MUL && u.X == ssa.Value(tmp) {
+										set = true
+									}
+								})
+							}
+						})
+						if where == nil && fn.Pkg != nil && fn.Pkg.Pkg == pk.Types {
+							where = fn
+						}
+					}
+					if where != nil {
+						c.check(set, where, "slot descriptor "+tn.Name(), tn.Pos(), "the embedded slot is given the object's descriptor", "no function stores a descriptor into "+tn.Name()+"."+sf.Name()+".Fd: every registration of such an object names descriptor 0 (standard input) instead of its own")
+					}
+				}
+			}
+		}
+		if nSlots < 5 {
+			c.bad(p.Method("internal", "Slot", "Set"), "slot descriptor", p.Method("internal", "Slot", "Set").Pos(), "the owners of embedded slots were not found (anchor moved): %d", nSlots)
+		}
+	}
 	// R4c: Cancel reaches a completion for every direction in which the type parks operations
 	{
 		type dirs struct{ read, write bool }
